@@ -11,7 +11,9 @@ import PromModel.Prelude.GoHeap
   * `SetIt`, `MSet` — `newGenericMergeSeriesSet` / `genericMergeSeriesSet.Next/At/Err` incl. the
     single-set pass-through, the series limit and `errorOnlySeriesSet`.
   * `Chunk`, `compactAll` (`compactChunkIterator`), `concatAll` (`concatenatingChunkIterator`),
-    `encodeChunks` (`seriesToChunkEncoder` at the level of abstract chunks = (mint, maxt, samples)).
+    `encodeChunks` (`seriesToChunkEncoder` at the level of abstract chunks = (mint, maxt, samples), incl. the
+    cut when the native-histogram appender reports a new chunk: `histNewChunk`), `decodeView` (hints as a
+    chunk iterator hands them out).
 
   Iterators are values that move between `curr`, the heap and `dead` (exhausted ones); `Seek` needs
   them in the order of `c.iterators`, which is recovered from `It.id`.
@@ -23,7 +25,7 @@ namespace Prom.Merge
 inductive Kind | float | hist | fhist
 deriving DecidableEq, Repr, Inhabited
 
-/-- One sample. `payload`: float bits for `float`; `4*id + counterResetHint` for histograms. -/
+/-- One sample. `payload`: float bits for `float`; `4*body + counterResetHint` for histograms (see `Sample.body`). -/
 structure Sample where
   t : Int
   kind : Kind
@@ -388,18 +390,73 @@ def ltCIt (a b : CIt) : Bool :=
 
 def splitLimit : Nat := 120
 
-/-- `seriesToChunkEncoder.Iterator` for samples without start timestamps and histograms that never
-    force a new chunk (same schema, gauge): cut on a change of sample type or after 120 samples. -/
+/-! ### Native histogram payloads
+
+  `payload = 4 * body + counterResetHint` (hint: 0 unknown, 1 reset, 2 not-reset, 3 gauge) and
+  `body = zeroCount + 2^20*b0 + 2^24*b1 + 2^28*b2 + 2^32*schema + 2^33*stale` with `zeroCount < 2^20`,
+  three positive buckets `b_i < 16` at indexes 0..2 (0 = absent or empty), `schema ∈ {0,1}`; `Count` is the sum
+  of the four counts; a stale marker (`Sum` = StaleNaN) has body `2^33`. -/
+
+def Sample.hint (s : Sample) : Nat := s.payload % 4
+def Sample.body (s : Sample) : Nat := s.payload / 4
+def Sample.isGauge (s : Sample) : Bool := s.payload % 4 == 3
+def Sample.stale (s : Sample) : Bool := s.body / 8589934592 % 2 == 1
+def Sample.schema (s : Sample) : Nat := s.body / 4294967296 % 2
+def Sample.zcnt (s : Sample) : Nat := s.body % 1048576
+def Sample.b0 (s : Sample) : Nat := s.body / 1048576 % 16
+def Sample.b1 (s : Sample) : Nat := s.body / 16777216 % 16
+def Sample.b2 (s : Sample) : Nat := s.body / 268435456 % 16
+def Sample.count (s : Sample) : Nat := s.zcnt + s.b0 + s.b1 + s.b2
+
+/-- `HistogramAppender.AppendHistogram` / `FloatHistogramAppender.AppendFloatHistogram` on a non-empty
+    chunk whose first sample was `first` and newest sample is `last`: does appending `s` hand back a NEW
+    chunk (not a recoded one)?  Transcribes `appendable` (explicit reset hint, stale rules, count / zero
+    count / bucket decrease incl. a used bucket that disappeared, schema change) and `appendableGauge`
+    (stale rules, schema change), plus the gauge-vs-counter header test both start with.  Buckets that only
+    appear (forward inserts) or empty buckets that are missing (backward inserts) recode the chunk in
+    place: no cut. -/
+def histNewChunk (first last s : Sample) : Bool :=
+  if s.kind == .float then false
+  else if s.isGauge then
+    !first.isGauge || (!s.stale && (last.stale || s.schema != last.schema))
+  else
+    first.isGauge || s.hint == 1 ||
+      (!s.stale && (last.stale || decide (s.count < last.count) || s.schema != last.schema ||
+        decide (s.zcnt < last.zcnt) || decide (s.b0 < last.b0) || decide (s.b1 < last.b1) || decide (s.b2 < last.b2)))
+
+/-- `seriesToChunkEncoder.Iterator` for samples without start timestamps: a new chunk starts on a change
+    of sample type, after 120 samples, or when the histogram appender reports a new chunk
+    (`newChk != nil && !recoded`: counter reset, schema change, stale → live, gauge ↔ counter); the new
+    chunk's `mint` is that sample's timestamp (`mint = MaxInt64` is re-armed at every cut). -/
 def encodeAux : List Sample → List Sample → List Chunk → List Chunk
   | [], cur, acc => (if cur.isEmpty then acc else Chunk.ofSamples cur.reverse :: acc).reverse
   | s :: tl, cur, acc =>
     match cur with
     | [] => encodeAux tl [s] acc
     | p :: _ =>
-      if p.kind ≠ s.kind ∨ cur.length ≥ splitLimit then encodeAux tl [s] (Chunk.ofSamples cur.reverse :: acc)
+      if p.kind ≠ s.kind ∨ cur.length ≥ splitLimit ∨ histNewChunk (cur.getLast?.getD p) p s = true then
+        encodeAux tl [s] (Chunk.ofSamples cur.reverse :: acc)
       else encodeAux tl (s :: cur) acc
 
 def encodeChunks (xs : List Sample) : List Chunk := encodeAux xs [] []
+
+def Sample.withHint (s : Sample) (h : Nat) : Sample := { s with payload := s.payload / 4 * 4 + h }
+
+def decodeFrom (gauge : Bool) : Nat → List Sample → List Sample
+  | _, [] => []
+  | i, s :: r =>
+    (if s.stale then s.withHint 0 else if gauge then s.withHint 3 else if i = 0 then s.withHint 0 else s.withHint 2)
+      :: decodeFrom gauge (i + 1) r
+
+/-- What the iterator of a (float-)histogram chunk holding `xs` hands out (`counterResetHint(header,
+    numRead)`): gauge chunk → gauge; otherwise unknown for the first sample, not-reset for later ones; a
+    stale marker always comes back as the bare `{Sum: StaleNaN}` (hint unknown). Float chunks: `xs`. -/
+def decodeView (xs : List Sample) : List Sample :=
+  match xs with
+  | [] => []
+  | f :: _ => if f.kind == .float then xs else decodeFrom f.isGauge 0 xs
+
+def Chunk.decode (c : Chunk) : Chunk := { c with samples := decodeView c.samples }
 
 def pushIfNext (h : Array CIt) (it : CIt) : Array CIt :=
   match it.next with
